@@ -315,4 +315,30 @@ theorem user_prevails (b : Builder) (xid : Bytes) (user : List Modifier) :
   · simp [apply]
   · simp [apply, requestOptions]
 
+/-! ### `OptionCodeList.Add` keeps what was there and adds what is asked for -/
+
+theorem mem_addCodes_of_mem (l cs : List OptCode) (c : OptCode) (h : c ∈ l) : c ∈ addCodes l cs := by
+  unfold addCodes
+  induction cs generalizing l with
+  | nil => simpa using h
+  | cons a cs ih =>
+    simp only [List.foldl_cons]
+    apply ih
+    split
+    · exact h
+    · exact List.mem_append_left _ h
+
+theorem addCodes_mem (l cs : List OptCode) (c : OptCode) (h : c ∈ cs) : c ∈ addCodes l cs := by
+  induction cs generalizing l with
+  | nil => cases h
+  | cons a cs ih =>
+    rcases List.mem_cons.mp h with rfl | h
+    · have : c ∈ (if l.contains c then l else l ++ [c]) := by
+        split
+        · rename_i hc; simpa using hc
+        · simp
+      simpa [addCodes] using mem_addCodes_of_mem _ cs c this
+    · simpa [addCodes] using ih (if l.contains a then l else l ++ [a]) h
+
+
 end Dhcp.V4
